@@ -154,7 +154,7 @@ class EYAMLProcessor(Processor):
         if self.privatekey:
             cmd.append(f"--pkcs7-private-key={self.privatekey}")
 
-        cleanval: str = str(value).replace("\n", "").replace(" ", "").rstrip()
+        cleanval: str = re.sub(r"[ \t\r\n]", "", str(value))
         bval: bytes = cleanval.encode("ascii")
         self.logger.debug(
             f"About to execute {' '.join(cmd)} against:\n{cleanval}",
@@ -392,4 +392,6 @@ class EYAMLProcessor(Processor):
         """
         if not isinstance(value, str):
             return False
-        return value.replace("\n", "").replace(" ", "").startswith("ENC[")
+        # All white-space is insignificant to the Base64 text of the value,
+        # not only blanks and new-lines
+        return re.sub(r"[ \t\r\n]", "", value).startswith("ENC[")
